@@ -71,6 +71,10 @@ func callEntry(e int, buf []byte) (res string, panicked bool, what interface{}) 
 			if z.UnmarshalCBOR(in) == nil {
 				useClaims(z)
 			}
+			// … and into a claims-set that already holds validated values (set through the setters)
+			if w := populatedClaims(psa.Profile1Name); w != nil && w.(*psa.P1Claims).UnmarshalCBOR(in) == nil {
+				useClaims(w)
+			}
 		case 4:
 			c, _ := psa.NewClaims(psa.Profile2Name)
 			err = c.(*psa.P2Claims).UnmarshalCBOR(in)
@@ -80,6 +84,10 @@ func callEntry(e int, buf []byte) (res string, panicked bool, what interface{}) 
 			z := &psa.P2Claims{}
 			if z.UnmarshalCBOR(in) == nil {
 				useClaims(z)
+			}
+			// … and into a claims-set that already holds validated values (set through the setters)
+			if w := populatedClaims(psa.Profile2Name); w != nil && w.(*psa.P2Claims).UnmarshalCBOR(in) == nil {
+				useClaims(w)
 			}
 		case 5:
 			c, _ := psa.NewClaims(psa.Profile1Name)
@@ -91,6 +99,10 @@ func callEntry(e int, buf []byte) (res string, panicked bool, what interface{}) 
 			if z.UnmarshalJSON(in) == nil {
 				useClaims(z)
 			}
+			// … and into a claims-set that already holds validated values (set through the setters)
+			if w := populatedClaims(psa.Profile1Name); w != nil && w.(*psa.P1Claims).UnmarshalJSON(in) == nil {
+				useClaims(w)
+			}
 		case 6:
 			c, _ := psa.NewClaims(psa.Profile2Name)
 			err = c.(*psa.P2Claims).UnmarshalJSON(in)
@@ -100,6 +112,10 @@ func callEntry(e int, buf []byte) (res string, panicked bool, what interface{}) 
 			z := &psa.P2Claims{}
 			if z.UnmarshalJSON(in) == nil {
 				useClaims(z)
+			}
+			// … and into a claims-set that already holds validated values (set through the setters)
+			if w := populatedClaims(psa.Profile2Name); w != nil && w.(*psa.P2Claims).UnmarshalJSON(in) == nil {
+				useClaims(w)
 			}
 		case 7:
 			d := &ShTwo{}
@@ -161,6 +177,30 @@ func callEntry(e int, buf []byte) (res string, panicked bool, what interface{}) 
 		return "panic", true, what
 	}
 	return okErr(err), false, nil
+}
+
+// populatedClaims: a valid claims-set of the named built-in profile, built with the setters and validated once.
+func populatedClaims(name string) psa.IClaims {
+	p := 1
+	if name == psa.Profile2Name {
+		p = 2
+	}
+	rng := NewRng(uint64(40 + p))
+	for {
+		d := baseValid(rng, p)
+		d.Canon, d.Prof = canonOf(p), sp(canonOf(p))
+		d.NoSw, d.SwKind = nil, SwList
+		d.Sw = []CompDesc{validComp(rng), validComp(rng)}
+		normalise(&d)
+		if hasBadUTF8(&d) || !conformant(&d) {
+			continue
+		}
+		c, _ := psa.NewClaims(name)
+		if !applyDesc(c, &d) || c.Validate() != nil {
+			return nil
+		}
+		return c
+	}
 }
 
 // eachNode visits every node of a tree with a setter that replaces it in place.
@@ -423,7 +463,11 @@ func runC05(r *Run, rng *Rng, thorough bool) {
 		}
 	}
 	for _, s := range []string{``, `{`, `}`, `[`, `nul`, `{"a":1,"a":2}`, `{"a":1,"a":2,"a":3}`, `{"a":{"a":1,"a":2},"a":[]}`, `{"i2":"x","i2":"y"}`, `{"z":1,"z":2,"j1":"AA==","j1":"AQ=="}`,
-		`{"a":[[[[[[[[[[[[[[[[[[[[[[[[[[[[[[[[[[]]]]]]]]]]]]]]]]]]]]]]]]]]]]]]]]]]}`, `{"":1}`, `{"a":1}}`, `{"a":1} {"b":2}`, `[{"a":1,"a":2}]`, `{"a":]}`, `{"a":1,}`, "{\"a\":\"\xff\"}"} {
+		`{"a":[[[[[[[[[[[[[[[[[[[[[[[[[[[[[[[[[[]]]]]]]]]]]]]]]]]]]]]]]]]]]]]]]]]]}`, `{"":1}`, `{"a":1}}`,
+		// both profile members at once, with values of every JSON type (a dispatcher comparing them must cope)
+		`{"psa-profile":[],"eat-profile":[]}`, `{"psa-profile":{},"eat-profile":{}}`, `{"psa-profile":[1],"eat-profile":{"a":1}}`, `{"psa-profile":{"a":[]},"eat-profile":[{}]}`,
+		`{"psa-profile":1,"eat-profile":1}`, `{"psa-profile":true,"eat-profile":false}`, `{"psa-profile":"PSA_IOT_PROFILE_1","eat-profile":[]}`, `{"psa-profile":[],"eat-profile":"http://arm.com/psa/2.0.0"}`,
+		`{"psa-profile":"x","eat-profile":"y"}`, `{"psa-profile":1.5,"eat-profile":{}}`, `{"a":1} {"b":2}`, `[{"a":1,"a":2}]`, `{"a":]}`, `{"a":1,}`, "{\"a\":\"\xff\"}"} {
 		for _, e := range []int{2, 5, 6, 8, 10, 12} {
 			try("json-handwritten", e, []byte(s))
 		}
